@@ -341,6 +341,10 @@ func c19(c *an.Ctx) {
 		}
 	})
 
+	c.Check("R-PROV", "directive conditions taken from variables see the variables' defaults: every selection set (operation and fragment definitions) is parsed with the defaulted variables (rule shared with C18)", 2, func(o *an.O) {
+		ruleParseUsesDefaultedVars(c, o)
+	})
+
 	c.Check("R-ERR", "parseIf rejects a missing or non-boolean `if` with an error", 3, func(o *an.O) {
 		fn := c.NeedFunc(gq, "parseIf")
 		nErr, nOK := 0, 0
